@@ -81,28 +81,45 @@ package boltz
 //@   modifies *
 
 //@ func (*RefCountedLinkedSetSymbol).decrementLinkCount
-//@   props C07
+//@   props C07 C05
 //@   errflow
 //@   nosafety
 //@   modifies *
+//@   ensures[missing-entity-is-fine] !entPresent(rsStore(symbol), str(id)) ==> result0 == -1 && result1 == nil && dbSame()
+//@   ensures[absent-stays-absent] entPresent(rsStore(symbol), str(id)) && !old(rcHas(rsB(symbol, tx, str(id)), prepend(TypeString, str(link)))) ==> result0 == -1 && result1 == nil && rcSame()
+//@   ensures[one-less] result1 == nil && entPresent(rsStore(symbol), str(id)) && old(rcHas(rsB(symbol, tx, str(id)), prepend(TypeString, str(link)))) ==> result0 == wrapm32(old(rcVal(rsB(symbol, tx, str(id)), prepend(TypeString, str(link)))) - 1) && (result0 > 0 ==> rcHas(rsB(symbol, tx, str(id)), prepend(TypeString, str(link))) && rcVal(rsB(symbol, tx, str(id)), prepend(TypeString, str(link))) == result0) && (result0 <= 0 ==> !sel(bktHas[rsB(symbol, tx, str(id))], prepend(TypeString, str(link))))
+//@   ensures[nothing-else-changes] rcOnly1(rsB(symbol, tx, str(id)), prepend(TypeString, str(link)))
+//@   ensures[failure-changes-no-count] result1 != nil ==> rcSame()
 
 //@ func (*RefCountedLinkedSetSymbol).incrementLinkCount
-//@   props C07
+//@   props C07 C05
 //@   errflow
 //@   nosafety
 //@   modifies *
+//@   ensures[missing-entity-is-not-found] !entPresent(rsStore(symbol), str(id)) ==> result1 != nil && dbSame()
+//@   ensures[one-more] result1 == nil ==> result0 == wrap32(old(rcCnt(rsB(symbol, tx, str(id)), prepend(TypeString, str(link)))) + 1) && rcHas(rsB(symbol, tx, str(id)), prepend(TypeString, str(link))) && rcVal(rsB(symbol, tx, str(id)), prepend(TypeString, str(link))) == result0
+//@   ensures[nothing-else-changes] rcOnly1(rsB(symbol, tx, str(id)), prepend(TypeString, str(link)))
+//@   ensures[failure-changes-no-count] result1 != nil ==> rcSame()
 
 //@ func (*RefCountedLinkedSetSymbol).setLinkCount
-//@   props C07
+//@   props C07 C05
 //@   errflow
 //@   nosafety
 //@   modifies *
+//@   ensures[missing-entity-is-not-found] !entPresent(rsStore(symbol), str(id)) ==> result1 != nil && dbSame()
+//@   ensures[returns-the-previous-count] result1 == nil ==> (result0 != nil) == old(rcHas(rsB(symbol, tx, str(id)), prepend(TypeString, str(link)))) && (result0 != nil ==> *result0 == old(rcVal(rsB(symbol, tx, str(id)), prepend(TypeString, str(link)))))
+//@   ensures[zero-removes-the-link] result1 == nil && count == 0 ==> !rcHas(rsB(symbol, tx, str(id)), prepend(TypeString, str(link)))
+//@   ensures[stores-the-count] result1 == nil && count != 0 && -2147483648 <= count && count <= MaxInt32 ==> rcHas(rsB(symbol, tx, str(id)), prepend(TypeString, str(link))) && rcVal(rsB(symbol, tx, str(id)), prepend(TypeString, str(link))) == count
+//@   ensures[nothing-else-changes] rcOnly1(rsB(symbol, tx, str(id)), prepend(TypeString, str(link)))
 
 //@ func (*RefCountedLinkedSetSymbol).unlink
-//@   props C07
+//@   props C07 C05
 //@   errflow
 //@   nosafety
-//@   modifies *
+//@   modifies bktHas, any errorz.ErrorHolderImpl.Err
+//@   ensures[missing-entity-is-fine] !entPresent(rsStore(symbol), str(id)) ==> result == nil && dbSame()
+//@   ensures[the-link-is-gone] result == nil && entPresent(rsStore(symbol), str(id)) ==> !rcHas(rsB(symbol, tx, str(id)), prepend(TypeString, str(link)))
+//@   ensures[nothing-else-changes] rcOnly1(rsB(symbol, tx, str(id)), prepend(TypeString, str(link)))
 
 //@ func (*TypedBucket).CheckAndDeleteListEntry
 //@   props C07 C05
@@ -134,26 +151,42 @@ package boltz
 //@   props C07 C05
 //@   errflow
 //@   nosafety
-//@   assume bucket.ErrorHolderImpl != nil
+//@   assume bucket.ErrorHolderImpl != nil && bucket.Bucket != nil
 //@   modifies bucket.Err, bktHas[bucket.Bucket], bktVal[bucket.Bucket]
 //@   ensures[holder] bucket.Err != nil ==> result1 != nil
+//@   ensures[pending-error-does-nothing] old(bucket.Err) != nil ==> result0 == -1 && result1 != nil && kept(bucket)
+//@   ensures[absent-stays-absent] old(bucket.Err) == nil && !old(rcHas(bucket.Bucket, prepend(fieldType, str(value)))) ==> result0 == -1 && result1 == nil && kept(bucket)
+//@   ensures[one-less] result1 == nil && old(rcHas(bucket.Bucket, prepend(fieldType, str(value)))) ==> result0 == wrapm32(old(rcVal(bucket.Bucket, prepend(fieldType, str(value)))) - 1)
+//@   ensures[a-positive-count-is-stored] result1 == nil && old(rcHas(bucket.Bucket, prepend(fieldType, str(value)))) ==> (result0 > 0 ==> rcHas(bucket.Bucket, prepend(fieldType, str(value))) && rcVal(bucket.Bucket, prepend(fieldType, str(value))) == result0)
+//@   ensures[the-link-disappears-at-zero] result1 == nil && old(rcHas(bucket.Bucket, prepend(fieldType, str(value)))) ==> (result0 <= 0 ==> !sel(bktHas[bucket.Bucket], prepend(fieldType, str(value))))
+//@   ensures[other-keys-kept] otherKeysKept(bucket, prepend(fieldType, str(value)))
+//@   ensures[failure-keeps-the-bucket] old(bucket.Err) == nil && result1 != nil ==> kept(bucket)
 
 
 //@ func (*TypedBucket).IncrementLinkCount
 //@   props C07 C05
 //@   errflow
 //@   nosafety
-//@   assume bucket.ErrorHolderImpl != nil
+//@   assume bucket.ErrorHolderImpl != nil && bucket.Bucket != nil
 //@   modifies bucket.Err, bktHas[bucket.Bucket], bktVal[bucket.Bucket]
 //@   ensures[holder] bucket.Err != nil ==> result1 != nil
+//@   ensures[pending-error-does-nothing] old(bucket.Err) != nil ==> result0 == 0 && result1 != nil && kept(bucket)
+//@   ensures[one-more] result1 == nil ==> result0 == wrap32(old(rcCnt(bucket.Bucket, prepend(fieldType, str(value)))) + 1) && rcHas(bucket.Bucket, prepend(fieldType, str(value))) && rcVal(bucket.Bucket, prepend(fieldType, str(value))) == result0
+//@   ensures[other-keys-kept] otherKeysKept(bucket, prepend(fieldType, str(value)))
+//@   ensures[failure-keeps-the-bucket] old(bucket.Err) == nil && result1 != nil ==> kept(bucket)
 
 //@ func (*TypedBucket).SetLinkCount
 //@   props C07 C05
 //@   errflow
 //@   nosafety
-//@   assume bucket.ErrorHolderImpl != nil
+//@   assume bucket.ErrorHolderImpl != nil && bucket.Bucket != nil
 //@   modifies bucket.Err, bktHas[bucket.Bucket], bktVal[bucket.Bucket]
 //@   ensures[holder] bucket.Err != nil ==> result1 != nil
+//@   ensures[pending-error-does-nothing] old(bucket.Err) != nil ==> result0 == nil && result1 != nil && kept(bucket)
+//@   ensures[returns-the-previous-count] old(bucket.Err) == nil ==> (result0 != nil) == old(rcHas(bucket.Bucket, prepend(fieldType, str(value)))) && (result0 != nil ==> *result0 == old(rcVal(bucket.Bucket, prepend(fieldType, str(value)))))
+//@   ensures[zero-removes-the-link] result1 == nil && count == 0 ==> !rcHas(bucket.Bucket, prepend(fieldType, str(value))) && (old(rcHas(bucket.Bucket, prepend(fieldType, str(value)))) ==> !sel(bktHas[bucket.Bucket], prepend(fieldType, str(value)))) && (!old(rcHas(bucket.Bucket, prepend(fieldType, str(value)))) ==> kept(bucket))
+//@   ensures[stores-the-count] result1 == nil && count != 0 && -2147483648 <= count && count <= MaxInt32 ==> rcHas(bucket.Bucket, prepend(fieldType, str(value))) && rcVal(bucket.Bucket, prepend(fieldType, str(value))) == count
+//@   ensures[other-keys-kept] otherKeysKept(bucket, prepend(fieldType, str(value)))
 
 //@ func (*TypedBucket).copyImpl
 //@   props C07
@@ -283,46 +316,76 @@ package boltz
 //@   modifies *
 
 //@ func (*rcLinkCollectionImpl).DecrementLinkCount
-//@   props C07
+//@   props C07 C05
 //@   errflow
 //@   nosafety
 //@   modifies *
+//@   ensures[missing-entity-is-an-error] !entPresent(rcFS(collection), str(id)) ==> result1 != nil && rcSame()
+//@   ensures[nothing-else-changes] rcOnly2(rcOwn(collection, tx, str(id)), prepend(TypeString, str(key)), rcFar(collection, tx, str(key)), prepend(TypeString, str(id)))
 
 //@ func (*rcLinkCollectionImpl).EntityDeleted
-//@   props C07
+//@   props C07 C05 C06
 //@   errflow
 //@   nosafety
 //@   modifies *
+//@   ensures[missing-entity-is-an-error] !entPresent(rcFS(collection), id) ==> result != nil
+//@   ensures[every-linked-entity-forgets-the-deleted-one] enumKeys() && (result == nil ==> forallStr(x, old(lkListed(rcOwn(collection, tx, id), x)) && entPresent(rcOS(collection), x) ==> !rcHas(rcFar(collection, tx, x), prepend(TypeString, id))))
+//@   invariant[cursor] 1: cursor != nil && bcKeys[cursor] == keysOf(bcSet[cursor]) && bcLen[cursor] == keyCnt(bcSet[cursor]) && 0 <= bcPos[cursor] && bcPos[cursor] <= bcLen[cursor] && (val != nil) == (bcPos[cursor] < bcLen[cursor]) && (val != nil ==> str(val) == sel(bcKeys[cursor], bcPos[cursor]))
+//@   invariant[all-links-are-visited] 1: str(bId) == id && forallStr(x, old(lkListed(rcOwn(collection, tx, id), x)) ==> sel(bcSet[cursor], prepend(TypeString, x)))
+//@   invariant[visited-ones-forgot] 1: forall(i, 0 <= i && i < bcPos[cursor] ==> (entPresent(rcOS(collection), untag(sel(bcKeys[cursor], i))) ==> !rcHas(rcFar(collection, tx, untag(sel(bcKeys[cursor], i))), prepend(TypeString, id))), sel(bcKeys[cursor], i))
 
 //@ func (*rcLinkCollectionImpl).IncrementLinkCount
-//@   props C07
+//@   props C07 C05
 //@   errflow
 //@   nosafety
 //@   modifies *
+//@   ensures[missing-entity-is-an-error] !entPresent(rcFS(collection), str(id)) ==> result1 != nil && rcSame()
+//@   ensures[both-sides-hold-the-new-count] result1 == nil && old(rcCnt(rcOwn(collection, tx, str(id)), prepend(TypeString, str(key)))) < MaxInt32 && old(rcCnt(rcFar(collection, tx, str(key)), prepend(TypeString, str(id)))) < MaxInt32 ==> result0 == old(rcCnt(rcOwn(collection, tx, str(id)), prepend(TypeString, str(key)))) + 1 && rcHas(rcOwn(collection, tx, str(id)), prepend(TypeString, str(key))) && rcVal(rcOwn(collection, tx, str(id)), prepend(TypeString, str(key))) == result0 && rcHas(rcFar(collection, tx, str(key)), prepend(TypeString, str(id))) && rcVal(rcFar(collection, tx, str(key)), prepend(TypeString, str(id))) == result0
+//@   ensures[nothing-else-changes] rcOnly2(rcOwn(collection, tx, str(id)), prepend(TypeString, str(key)), rcFar(collection, tx, str(key)), prepend(TypeString, str(id)))
 
 //@ func (*rcLinkCollectionImpl).SetLinkCount
-//@   props C07
+//@   props C07 C05
 //@   errflow
 //@   nosafety
 //@   modifies *
+//@   ensures[missing-entity-is-an-error] !entPresent(rcFS(collection), str(id)) ==> result2 != nil && rcSame()
+//@   ensures[both-sides-hold-the-count] result2 == nil && count != 0 && -2147483648 <= count && count <= MaxInt32 ==> rcHas(rcOwn(collection, tx, str(id)), prepend(TypeString, str(key))) && rcVal(rcOwn(collection, tx, str(id)), prepend(TypeString, str(key))) == count && rcHas(rcFar(collection, tx, str(key)), prepend(TypeString, str(id))) && rcVal(rcFar(collection, tx, str(key)), prepend(TypeString, str(id))) == count
+//@   ensures[zero-removes-the-link-on-both-sides] result2 == nil && count == 0 ==> !rcHas(rcOwn(collection, tx, str(id)), prepend(TypeString, str(key))) && !rcHas(rcFar(collection, tx, str(key)), prepend(TypeString, str(id)))
+//@   ensures[nothing-else-changes] rcOnly2(rcOwn(collection, tx, str(id)), prepend(TypeString, str(key)), rcFar(collection, tx, str(key)), prepend(TypeString, str(id)))
 
 //@ func (*rcLinkCollectionImpl).decrementLinkCount
-//@   props C07
+//@   props C07 C05
 //@   errflow
 //@   nosafety
 //@   modifies *
+//@   assume[a-usable-field-bucket] fieldBucket != nil && fieldBucket.ErrorHolderImpl != nil && fieldBucket.Bucket != nil
+//@   ensures[one-less] result1 == nil && old(rcHas(fieldBucket.Bucket, prepend(TypeString, str(associatedId)))) && entPresent(rcOS(collection), str(associatedId)) && old(rcHas(rcFar(collection, tx, str(associatedId)), prepend(TypeString, str(id)))) ==> result0 == wrapm32(old(rcVal(fieldBucket.Bucket, prepend(TypeString, str(associatedId)))) - 1)
+//@   ensures[near-side-holds-a-positive-count] result1 == nil && old(rcHas(fieldBucket.Bucket, prepend(TypeString, str(associatedId)))) && entPresent(rcOS(collection), str(associatedId)) && old(rcHas(rcFar(collection, tx, str(associatedId)), prepend(TypeString, str(id)))) ==> (result0 > 0 ==> rcHas(fieldBucket.Bucket, prepend(TypeString, str(associatedId))) && rcVal(fieldBucket.Bucket, prepend(TypeString, str(associatedId))) == result0)
+//@   ensures[far-side-holds-a-positive-count] result1 == nil && old(rcHas(fieldBucket.Bucket, prepend(TypeString, str(associatedId)))) && entPresent(rcOS(collection), str(associatedId)) && old(rcHas(rcFar(collection, tx, str(associatedId)), prepend(TypeString, str(id)))) ==> (result0 > 0 ==> rcHas(rcFar(collection, tx, str(associatedId)), prepend(TypeString, str(id))) && rcVal(rcFar(collection, tx, str(associatedId)), prepend(TypeString, str(id))) == result0)
+//@   ensures[near-side-link-disappears-at-zero] result1 == nil && old(rcHas(fieldBucket.Bucket, prepend(TypeString, str(associatedId)))) && entPresent(rcOS(collection), str(associatedId)) && old(rcHas(rcFar(collection, tx, str(associatedId)), prepend(TypeString, str(id)))) ==> (result0 <= 0 ==> !(sel(bktHas[fieldBucket.Bucket], prepend(TypeString, str(associatedId))) && sel(bktSub[fieldBucket.Bucket], prepend(TypeString, str(associatedId))) == 0))
+//@   ensures[far-side-link-disappears-at-zero] result1 == nil && old(rcHas(fieldBucket.Bucket, prepend(TypeString, str(associatedId)))) && entPresent(rcOS(collection), str(associatedId)) && old(rcHas(rcFar(collection, tx, str(associatedId)), prepend(TypeString, str(id)))) ==> (result0 <= 0 ==> !(sel(bktHas[rcFar(collection, tx, str(associatedId))], prepend(TypeString, str(id))) && sel(bktSub[rcFar(collection, tx, str(associatedId))], prepend(TypeString, str(id))) == 0))
+//@   ensures[nothing-else-changes] rcOnly2(fieldBucket.Bucket, prepend(TypeString, str(associatedId)), rcFar(collection, tx, str(associatedId)), prepend(TypeString, str(id)))
 
 //@ func (*rcLinkCollectionImpl).incrementLinkCount
-//@   props C07
+//@   props C07 C05
 //@   errflow
 //@   nosafety
 //@   modifies *
+//@   assume[a-usable-field-bucket] fieldBucket != nil && fieldBucket.ErrorHolderImpl != nil && fieldBucket.Bucket != nil
+//@   ensures[one-more] result1 == nil && old(rcCnt(fieldBucket.Bucket, prepend(TypeString, str(associatedId)))) < MaxInt32 && old(rcCnt(rcFar(collection, tx, str(associatedId)), prepend(TypeString, str(id)))) < MaxInt32 ==> result0 == old(rcCnt(fieldBucket.Bucket, prepend(TypeString, str(associatedId)))) + 1
+//@   ensures[far-side-holds-the-new-count] result1 == nil && old(rcCnt(fieldBucket.Bucket, prepend(TypeString, str(associatedId)))) < MaxInt32 && old(rcCnt(rcFar(collection, tx, str(associatedId)), prepend(TypeString, str(id)))) < MaxInt32 ==> rcHas(rcFar(collection, tx, str(associatedId)), prepend(TypeString, str(id))) && rcVal(rcFar(collection, tx, str(associatedId)), prepend(TypeString, str(id))) == result0
+//@   ensures[near-side-holds-the-new-count] result1 == nil && old(rcCnt(fieldBucket.Bucket, prepend(TypeString, str(associatedId)))) < MaxInt32 && old(rcCnt(rcFar(collection, tx, str(associatedId)), prepend(TypeString, str(id)))) < MaxInt32 ==> rcHas(fieldBucket.Bucket, prepend(TypeString, str(associatedId))) && rcVal(fieldBucket.Bucket, prepend(TypeString, str(associatedId))) == result0
+//@   ensures[nothing-else-changes] rcOnly2(fieldBucket.Bucket, prepend(TypeString, str(associatedId)), rcFar(collection, tx, str(associatedId)), prepend(TypeString, str(id)))
 
 //@ func (*rcLinkCollectionImpl).setLinkCount
-//@   props C07
+//@   props C07 C05
 //@   errflow
 //@   nosafety
 //@   modifies *
+//@   assume[a-usable-field-bucket] fieldBucket != nil && fieldBucket.ErrorHolderImpl != nil && fieldBucket.Bucket != nil
+//@   ensures[both-sides-hold-the-count] result2 == nil && value != 0 && -2147483648 <= value && value <= MaxInt32 ==> rcHas(fieldBucket.Bucket, prepend(TypeString, str(associatedId))) && rcVal(fieldBucket.Bucket, prepend(TypeString, str(associatedId))) == value && rcHas(rcFar(collection, tx, str(associatedId)), prepend(TypeString, str(id))) && rcVal(rcFar(collection, tx, str(associatedId)), prepend(TypeString, str(id))) == value
+//@   ensures[zero-removes-the-link-on-both-sides] result2 == nil && value == 0 ==> !rcHas(fieldBucket.Bucket, prepend(TypeString, str(associatedId))) && !rcHas(rcFar(collection, tx, str(associatedId)), prepend(TypeString, str(id)))
+//@   ensures[nothing-else-changes] rcOnly2(fieldBucket.Bucket, prepend(TypeString, str(associatedId)), rcFar(collection, tx, str(associatedId)), prepend(TypeString, str(id)))
 
 
 //@ func (*systemMutateContext).runPreCommitActions
